@@ -1203,6 +1203,27 @@ Qed.
 Lemma nrun_distinct ops : distinct_inv (nrun ops).
 Proof. apply nrun_from_distinct; [exact minv_empty|exact distinct_init]. Qed.
 
+(** only the three record methods change the lists (type SOA aside, which
+    registration and updateSOA write) *)
+Definition is_mutator (o : nop) : bool :=
+  match o with AddRecord _ _ _ | SetRecord _ _ _ _ | DeleteRecords _ _ => true | _ => false end.
+
+Lemma other_ops_keep_lists s co tk nk tb :
+  is_mutator (snd co) = false -> tb <> 6%N ->
+  spec_recs (fst (fst (nstep s co))) tk nk tb = spec_recs s tk nk tb /\
+  forall i, records (fst (fst (nstep s co))) !! (tk, nk, tb, i) = records s !! (tk, nk, tb, i).
+Proof.
+  intros Hm Htb.
+  assert (Hk : forall i, records (fst (fst (nstep s co))) !! (tk, nk, tb, i) = records s !! (tk, nk, tb, i)).
+  { destruct (nstep_cases hash valid_name valid_data str_ok s co) as [(s' & r & ns & He & ->)|[_ ->]]; [|reflexivity].
+    cbn [fst]. intros i.
+    destruct (nexec_records_cases _ _ _ _ _ _ He) as [E|[(tok & name & data & E)|[(name & typ & data & Eo)|[(name & typ & id & data & Eo)|(name & typ & Eo)]]]];
+      try (rewrite Eo in Hm; discriminate Hm).
+    - rewrite E. reflexivity.
+    - rewrite E. apply lookup_insert_ne. intros Heq. apply Htb. congruence. }
+  split; [apply spec_recs_ext; exact Hk|exact Hk].
+Qed.
+
 (** * 9. Location: the token of a name *)
 Lemma head_filter_lookup {A} (P : A -> Prop) `{!forall x, Decision (P x)} (l : list A) :
   match head (filter P l) with
@@ -1485,7 +1506,7 @@ Lemma link_spec s tk nk :
   (exists d, spec_recs s tk nk 5 = [d] /\ List.last (spec_recs s tk nk 5) [] = d).
 Proof.
   intros Hinv. assert (Hl : (length (spec_recs s tk nk 5) <= 1)%nat) by (apply (spec_recs_shape s tk nk 5%N Hinv); left; reflexivity).
-  destruct (spec_recs s tk nk 5) as [|d [|d' l]]; [left; auto|right; exists d; auto|simpl in Hl; lia].
+  destruct (spec_recs s tk nk 5) as [|d [|d' l]]; [left; split; reflexivity|right; exists d; split; reflexivity|simpl in Hl; lia].
 Qed.
 
 (** corollaries: chains of 0, 1, 2 links halt with the concatenation; a chain
